@@ -318,6 +318,9 @@ func (x *scen) setup(kv map[string]string) string {
 	}
 	x.pool.Start()
 	x.stop = make(chan struct{})
+	if kv["nodrain"] == "1" { // the reactor is busy in its SYNC_LOOP: nobody reads the request channel
+		return "chain nodrain=1"
+	}
 	go func(stop chan struct{}, req <-chan bc.BlockRequest, to <-chan string) { // the reactor's side of the channels
 		for {
 			select {
@@ -354,12 +357,16 @@ func (x *scen) wire() {
 	bcReactor := &recorder{bcR: x.bcR}
 	x.rec = bcReactor
 	x.stateM = stateM
-	bcReactor.skipExec = func() bool { return x.live && x.forged > 0 }
+	liveForged := false
+	bcReactor.skipExec = func() bool { return liveForged }
 	bcReactor.onExec = func(b *types.Block) {
 		// independent of the model: only the source chain's block may be stored and executed
 		real := x.blocks[b.Height]
 		if real == nil || !bytes.Equal(real.Hash(), b.Hash()) || !bytes.Equal(wire.BinaryBytes(real), wire.BinaryBytes(b)) {
 			x.forged++
+			if x.live {
+				liveForged = true
+			}
 			x.r.Fail(vh.Failure{Class: "fast-sync-applied-a-block-that-is-not-the-committed-one",
 				Detail: fmt.Sprintf("height %d: stored and executed block %X, the chain committed %X", b.Height, b.Hash(), x.snaps[b.Height].lastID.Hash),
 				Ops:    append(append([]string{}, x.lines...), "complete | complete"), Got: "applied", Want: "not applied"})
@@ -950,6 +957,19 @@ func main() {
 	}
 	R := r.R
 	x.emit("cfg", "cfg", "ok")
+	if r.Mode == "handoff" {
+		for q := 0; q < r.Scale(2, 8); q++ {
+			x.lines = x.lines[:0]
+			n := R.Range(1, 5)
+			var ps []string
+			for i := 0; i < n; i++ {
+				ps = append(ps, fmt.Sprint(R.Range(1, 5)))
+			}
+			runHandoff(x, fmt.Sprintf("chain n=%d me=0 powers=%s heights=2 seed=%d peers=p0:%d,p1:%d,p2:%d nodrain=1", n, strings.Join(ps, ","), R.Intn(1<<30),
+				R.Range(300, 900), R.Range(300, 900), R.Range(300, 900)))
+		}
+		return
+	}
 	scenarios := r.Scale(14, 120)
 	for q := 0; q < scenarios; q++ {
 		x.lines = x.lines[:0]
@@ -1156,8 +1176,9 @@ func runLive(x *scen, tail string) {
 	}
 	_ = s
 	x.emit("live-sync", "live-sync", res)
-	x.live = false // finish/continue are recorded
 	x.bcR.Stop()
+	time.Sleep(2 * time.Millisecond)
+	x.live = false // finish/continue are recorded
 	if caught {
 		x.liveEnd()
 	}
@@ -1178,6 +1199,73 @@ func (x *scen) liveEnd() {
 		ans = "failed"
 	}
 	x.emit("live-end", "live-end", ans)
+}
+
+// runHandoff: the request channel is full because the reactor is busy executing blocks (it drains the
+// channel only between SYNC_LOOP rounds), so requesters that already chose their peer are still
+// blocked sending their request. A peer answers such a request before it was sent - an honest peer
+// never does, a hostile one only has to guess a height. The response must be taken or dropped; the
+// receiving goroutine must come back, and the sync loop must still be able to look at the pool.
+func runHandoff(x *scen, tail string) {
+	kv := nodeimpl.Kvs(strings.Fields(tail))
+	line := x.setup(kv)
+	if line == "setup-failed" {
+		return
+	}
+	x.emit(line, tail, "ok")
+	req := x.bcR.VerifRequests()
+	deadline := time.Now().Add(5 * time.Second)
+	for len(req) < cap(req) && time.Now().Before(deadline) {
+		time.Sleep(time.Millisecond)
+	}
+	time.Sleep(20 * time.Millisecond)
+	// requesters that have their peer; the requests of all but cap(req) of them are not yet in the channel
+	res := "none"
+	var h int64
+	var peerID string
+	tried := 0
+	if len(req) == cap(req) {
+		done := make(chan string, 4)
+		for k := int64(1); k < 299 && !strings.Contains(res, "blocked"); k++ {
+			id, have := x.pool.VerifHolder(k)
+			if id == "" || have {
+				continue
+			}
+			h, peerID = k, id
+			tried++
+			b := x.forge(1)
+			b.Header.Height = k
+			bz := bc.VerifBlockResponseBytes(b)
+			go func() {
+				done <- vh.Guard(func() string { x.bcR.Receive(bc.BlockchainChannel, x.peers[id], bz); return "returned" })
+			}()
+			select {
+			case res = <-done:
+			case <-time.After(1500 * time.Millisecond):
+				res = "blocked"
+			}
+		}
+		// the sync loop's next look at the pool
+		go func() { done <- vh.Guard(func() string { x.bcR.VerifTrySync(); return "returned" }) }()
+		select {
+		case r2 := <-done:
+			res += " sync=" + r2
+		case <-time.After(1500 * time.Millisecond):
+			res += " sync=blocked"
+		}
+	}
+	x.r.Extra["handoff_responses_tried"] = tried
+	x.r.Count("handoff-" + strings.Fields(res)[0])
+	x.r.Distinct("handoff/" + res)
+	if strings.Contains(res, "blocked") {
+		x.r.Fail(vh.Failure{Class: "fast-sync-wedged-by-a-block-response-that-precedes-its-request",
+			Detail: fmt.Sprintf("request channel full (%d), requester of height %d assigned to %s still sending its request; a block response for that height from that peer: Receive %s; afterwards the pool lock is never released",
+				cap(req), h, peerID, res),
+			Ops: append([]string{}, x.lines...), Got: res, Want: "returned sync=returned"})
+		// the goroutines are stuck for good: leave this reactor behind
+		x.pool, x.bcR, x.stop = nil, nil, nil
+	}
+	x.emit(fmt.Sprintf("handoff pending=%d", len(req)), "handoff", res)
 }
 
 func doChain(x *scen, tail string) bool {
@@ -1216,7 +1304,9 @@ func replay(x *scen, lines []string) {
 		case "chain":
 			x.lines = x.lines[:0]
 			x.dead = false
-			if kv["live"] == "1" {
+			if kv["nodrain"] == "1" {
+				runHandoff(x, tail)
+			} else if kv["live"] == "1" {
 				runLive(x, tail)
 			} else {
 				doChain(x, tail)
